@@ -1,5 +1,5 @@
 """C12 - time to beat conversion inverts beat to time on the tick grid (structural clauses)."""
-from ..rules import timing, state
+from ..rules import timing, state, baseline
 
 EXPLANATION = (
     "Static rule checking of the inverse direction: R-BISECT the list searched by beat_at must be sorted by the key it is searched "
@@ -25,8 +25,12 @@ def c3(ctx):
     state.shared_state(ctx, ["simfile.timing.engine:TimingEngine.__init__", "simfile.timing.engine:TimingEngine.beat_at"], "the beats an engine reports depend on its own timing data only")
     timing.warp_union(ctx)
 
+def c_api(ctx):
+    baseline.surface(ctx, "C12: documented surface", modules=['simfile.timing.engine', 'simfile.timing'])
+
 CLAUSES = [
     ("C12.1", "search order = build order for _tagged_times (R-BISECT)", c1),
     ("C12.2-3", "dimensions of beats_until / beat_at; guard sets; default tag", c2),
     ("C12.4", "no process-wide state behind the engine; warp segments act as their union (shared with C11) (R-STATE, R-TABLE)", c3),
+    ("C12.api", "public surface: signatures and defaults, constants, enumerations, blank templates, base classes as confirmed (R-API)", c_api),
 ]
